@@ -295,6 +295,9 @@ func (r *Run) exec(src func(c *C) Src, prop func(c *C), replaying bool, rethrow 
 		}
 		// the case held: account for it
 		r.res.Evaluations++
+		if dc := os.Getenv("VERIF_DEBUG_CLASS"); dc != "" && c.classes[dc] { // tooling: print the trace of cases of a class
+			fmt.Fprintf(os.Stderr, "=== case with class %q\n%s\n", dc, strings.Join(c.notes, "\n"))
+		}
 		r.res.Steps += c.steps
 		for k := range c.classes {
 			r.res.Classes[k]++
